@@ -70,7 +70,7 @@ def build_initial(rec):
     cls = cls_by_name(FIRST_ORDER.get(rec['cls'], rec['cls']))
     p = np.array(rec['p'], dtype=np.float64)
     t = np.array(rec['t'], dtype=np.int64)
-    m = cls(p, t)
+    m = cls(p, t, sort_t=False) if rec.get('sort_t') is False else cls(p, t)
     if rec['cls'] in FIRST_ORDER:
         m = cls_by_name(rec['cls']).from_mesh(m)
     if rec.get('sub'):
@@ -106,6 +106,19 @@ def execute(rec, timeout=30):
             if err:
                 break                                   # not a refinement step; judged by C18
             m = m2
+            continue
+        if name == 'oriented':
+            m2, err = guarded(lambda: m.oriented(), timeout)
+            if err:
+                break
+            m = m2
+            continue
+        if name == 'side':
+            # an operation on the SAME object whose result is discarded (it must leave the operand untouched)
+            sub, sarg = arg[0], arg[1]
+            guarded(lambda: (m.refined(int(sarg)) if sub == 'refine' else
+                             m.refined(np.array([a for a in sarg if a < m.t.shape[1]], dtype=np.int32)) if sub == 'adapt'
+                             else m.oriented() if sub == 'oriented' else m.facets), timeout)
             continue
         cap = LogCapture()
         logger.addHandler(cap)
